@@ -279,6 +279,8 @@ def check(ctx, env):
     r1_5_header(ctx, env.prog("full"))
     r1_6_nested_padding(ctx, env.prog("full"))
     r1_10_context_slice(ctx, env.prog("full"))
+    from . import coverage_rules
+    coverage_rules.r1_11_size_agreement(ctx, env.prog("full"))
     from . import c02 as _c02
     _c02.r2_6_address_layout(ctx, env.prog("full"), rule="R1.8")     # writer / reader agreement of the shared address codec
     _c02.r2_7_u16_list(ctx, env.prog("full"), rule="R1.9")           # writer / reader agreement of the 16-bit list
